@@ -11,35 +11,22 @@ def opCurvParts (j : Json) : E Json := do
   let c := curvParts pts
   pure <| Json.mkObj [("num", lJ rJ c.num), ("speedSq", lJ rJ c.speedSq), ("segSq", lJ rJ c.segSq)]
 
-/-- build the pressure system from a mesh dump, the interface tensions and the total curvatures the code computed -/
+/-- build the pressure system from a mesh dump, the interface tensions and the total curvatures the code computed
+    (the assembly itself is `Mesh.pressureSystem`, ForsysModel/Model/PressureSystem.lean) -/
 def opPMatrix (j : Json) : E Json := do
   let m ← jMesh (← field j "mesh")
   let tens ← jList jRat (← field j "tension")      -- per interface (position in big_edges_list)
   let curv ← jList jRat (← field j "curv")         -- per interface
-  let earr := m.bigEdgesList
-  let internal := m.internalIdx earr
-  let cellKeys := m.cells.map (·.1)
-  let ncells := cellKeys.length
-  let pos (c : Id) : Nat := (indexOf? c cellKeys).getD ncells
-  let rows := internal.map fun i =>
-    let e := earr.getD i []
-    let oc := m.bigEdgeOwnCells e
-    let a := oc.getD 0 0
-    let b := oc.getD 1 0
-    let cyc : List Pt := match m.cell? a with
-      | some c => c.verts.map m.pt
-      | none => []
-    (oc.length, pressureRow ncells (pos a) (pos b) (areaSign cyc), pressureRhs (tens.getD i 0) (curv.getD i 0))
-  let L := rows.map (·.2.1)
-  let removed := removedColumns L ncells
+  let S := m.pressureSystem tens curv
+  let L := S.lhs
   pure <| Json.mkObj [
-    ("internal", lJ nJ internal),
-    ("ownCellCounts", lJ nJ (rows.map (·.1))),
+    ("internal", lJ nJ S.internal),
+    ("ownCellCounts", lJ nJ S.ownCellCounts),
     ("lhsFull", lJ (lJ rJ) L),
-    ("rhs", lJ rJ (rows.map (·.2.2))),
-    ("removed", lJ nJ removed),
-    ("lhs", lJ (lJ rJ) (dropColumns L removed)),
-    ("mappingOrder", lJ iJ cellKeys)]
+    ("rhs", lJ rJ S.rhs),
+    ("removed", lJ nJ S.removed),
+    ("lhs", lJ (lJ rJ) (dropColumns L S.removed)),
+    ("mappingOrder", lJ iJ (m.cells.map (·.1)))]
 
 /-- certificate for the constrained least-squares solution (the code does not expose the multiplier):
     gradient `Lᵀ(Lp − r)` constant over the components, zero sum -/
